@@ -934,6 +934,7 @@ func (g *egen) mutateE2E(p *gProgram) string {
 		if d := pickKind("entitlement"); d != nil {
 			p.removeDecl(d.Name)
 			p.dropMentions(d.Name)
+			g.removed = d.Name
 			return lblEntRemove
 		}
 	case 19:
@@ -1695,9 +1696,11 @@ func runScenario(sum *lib.Summary, cw *lib.CaseWriter, distinct map[string]bool,
 			if rt.Name == "contract" || rt.ViaRef {
 				reach = prune(rt.Val, s.NewG, rt.Name == "contract")
 			}
-			// values of a type removed with #removedType are given up by design; whether a value
-			// CONTAINING one still loads depends on container static types, which the model does
-			// not have: such roots are checked for well-formedness only
+			// values of a type removed with #removedType are given up by design, and whether a value
+			// CONTAINING one (or a capability mentioning a removed entitlement, in a field the new
+			// version dropped) still loads depends on container static types, which the model does
+			// not have: such roots are checked for well-formedness only (the direct check above
+			// still reports every failed inspection)
 			if s.Removed != "" && valMentions(rt.Val, s.Removed) {
 				reach, ok = &Val{K: "int"}, "true"
 			}
